@@ -13,6 +13,17 @@ def classify(inp, obs, tags):
     return out, nontrivial
 
 
+def classify_compfaults(inp, obs, tags):
+    """engine compvec --faults: <fmt> <ty> v=.. k=.. <ops>; the fault ops start with x"""
+    t = inp.split(" ")
+    ops = t[4:]
+    out = [f"format:{t[0]}", f"type:{t[1]}", f"retention:{t[3]}"]
+    out += [x for x in tags if x.startswith(("fault:", "xo:", "faulted-", "decode-alloc:", "commit:"))]
+    out += ["op:" + {"b": "rollback", "bb": "rollback-before"}[o.split(":")[0]] for o in ops if o.split(":")[0] in ("b", "bb")]
+    faulted = any(o[0] == "x" for o in ops)
+    return sorted(set(out)), faulted and any(o.split(":")[0] in ("b", "bb") for o in ops)
+
+
 PROP = dict(
     engines=[
         dict(name="rawvec", classify=classify,
@@ -60,7 +71,42 @@ TEXT = dict(
 import importlib.util as _u, os as _os
 _spec = _u.spec_from_file_location("c04comp", _os.path.join(_os.path.dirname(_os.path.dirname(_os.path.abspath(__file__))), "propdefs_C04_comp_fragment.py"))
 _comp = _u.module_from_spec(_spec); _spec.loader.exec_module(_comp)
-PROP["engines"] = PROP["engines"] + _comp.PROP["engines"]
-PROP["rule"] = PROP["rule"] + " || compressed: " + _comp.PROP["rule"]
+PROP["engines"] = PROP["engines"] + _comp.PROP["engines"] + [dict(
+    # fault stream on the change directory of real compressed vectors (Props/C16compfault.v, Vec/CvFault.v)
+    name="compvec", classify=classify_compfaults, extra=["--faults"],
+    quick=dict(cases=800, shards=4, profiles=["debug"]),
+    thorough=dict(cases=16000, shards=16, profiles=["debug"]),
+)]
+PROP["extra_targets"] = PROP.get("extra_targets", []) + _comp.PROP.get("extra_targets", []) + ["Vec/CvFaultProofs.vo"]
+PROP["rule"] = PROP["rule"] + " || compressed: " + _comp.PROP["rule"] + (
+    " || compressed fault stream (engine compvec --faults): families of single-fault cases on REAL PcoVec/LZ4Vec/ZstdVec "
+    "(+EagerVec wrappers; u64, u32, u16, i64, f64, u128, [u8;3]): a generated commit history with retention 1..4 (1..k+2 commits, "
+    "pushes / truncations in between, re-imports; the last commit append-only / truncating / truncate-then-push / no-change / made "
+    "after the rollback of a truncating commit so that prev_pushed is non-empty), ending right after a commit; then ONE fault on "
+    "the newest change file: deleted, truncated at EVERY byte offset (records <= 512 bytes; 64 sampled offsets otherwise; an evenly "
+    "spaced subset when the case budget of the run cannot hold them all), each of the 6 u64 fields located by parsing the record as "
+    "serialize_changes lays it out (stamp, prev_stored_len, stored_len, truncated count, prev_pushed count, pushed count) overwritten "
+    "with 0, 1, 2^32, 2^63, 2^64-1, value+1, value-1; then rollback() (2/3) or rollback_before(s) (1/3); then push + write. Every "
+    "step is compared with the extracted model (Vec/CvFault.v: the three faults act on the model's change directory bytes). "
+    "Implementation-only oracles: a refused rollback leaves contents, length and stamp unchanged (failed-rollback-changed-vector); "
+    "an accepted damaged record must leave a state (contents + stamp) that was committed in this history "
+    "(rollback-of-damaged-record-accepted-comp; a stored length above the on-disk length or above 2^24 values is reported as "
+    "rollback-of-damaged-record-sets-length-beyond-data-comp and the vector is not read any more); push + write after a refused "
+    "rollback succeed (vector-unusable-after-refused-rollback-comp); no panic. non-trivial = a fault followed by a rollback")
+TEXT["text"] = TEXT["text"] + (
+    "  Compressed change records under faults (Props/C16compfault.v, all byte strings / element types): "
+    "C16_comp_record_truncation_rejected (every strict prefix of ANY accepted input is refused), "
+    "C16_comp_record_extension_rejected, C16_comp_record_parser_total, C16_comp_damaged_record_verdict (for a record with ANY "
+    "stamp / prev_stored_len / stored_len field: Underflow iff prev_stored_len < truncated count, IndexTooHigh iff the vector's "
+    "stored_len < prev_stored_len - truncated count, applied otherwise; refusals change nothing), "
+    "C16_comp_append_only_prev_stored_len_refused / _accepted, C16_comp_rollback_of_overwritten_prev_stored_len_refused "
+    "(the fault op + rollback() end to end on the model), and C16_comp_damaged_refused_refuted: 'every altered record is "
+    "refused' is false (no checksum) — witness replayed on the real code by the fault stream.")
+TEXT["note"] = TEXT["note"] + ("  Compressed: a record altered into another structurally consistent one (stamp field: any value; "
+    "prev_stored_len lowered; counts that happen to re-parse) is applied — key rollback-of-damaged-record-accepted-comp.")
+ENGINES = ENGINES + [dict(name="compvec", path="harness/src/eng_compvec.rs + ocaml/eng_compvec.ml", serves_properties=["C07", "C03", "C04", "C16", "C17"],
+    kind_free_text="differential: real compressed vectors vs the extracted Coq model after every step (commit / rollback histories; with "
+                   "--faults: single-file faults on the real change directory, mirrored on the model's directory bytes), plus "
+                   "implementation-only oracles (reference vector, committed-snapshot set, panic and allocation watch)")]
 PROP["trusted_base"] = PROP.get("trusted_base", []) + _comp.PROP["trusted_base"]
 PROP["assumptions"] = PROP.get("assumptions", []) + _comp.PROP["assumptions"]
